@@ -22,6 +22,9 @@ pub const SHARDS: u64 = 16;
 pub const VERIF_ROOT: &str = "/verif";
 /// Where evidence and replay files go. `/verif` unless `VERIF_OUT_DIR` is set (used by the isolated mutation sweep of
 /// tools/automut.py, which runs the same binaries against scratch copies of the tree and must not touch /verif's files).
+pub fn cov_divisor() -> u64 {
+    std::env::var("VERIF_COV_DIVISOR").ok().and_then(|s| s.parse().ok()).filter(|d| *d >= 1).unwrap_or(1)
+}
 pub fn out_root() -> String {
     std::env::var("VERIF_OUT_DIR").ok().filter(|s| !s.is_empty()).unwrap_or_else(|| VERIF_ROOT.to_string())
 }
@@ -512,7 +515,8 @@ impl Ctx {
         let t0 = Instant::now();
         let stop = AtomicBool::new(false);
         let merged = Mutex::new((Stats::default(), Vec::<ViolationRec>::new()));
-        let per = cases.div_ceil(SHARDS).max(1);
+        // VERIF_COV_DIVISOR: tools/coverage.sh only (instrumented binaries are ~100x slower); registered checks never set it
+        let per = (cases / cov_divisor()).div_ceil(SHARDS).max(1);
         std::thread::scope(|sc| {
             for shard in 0..SHARDS {
                 let (stop, merged, strategy, f) = (&stop, &merged, &strategy, &f);
@@ -624,7 +628,7 @@ impl Ctx {
                                 });
                             }
                         }
-                        i += threads;
+                        i += threads * if total > 64 { cov_divisor() } else { 1 };
                     }
                     let mut g = merged.lock().unwrap();
                     g.0.merge(stats);
